@@ -102,7 +102,7 @@ def run(chk, replay_case=None):
     # the stream a case belongs to is decided by the MODEL's evaluation of the input predicates on the history
     # (the harness evaluates the same predicates on the real run; a disagreement keeps the case in the clean stream)
     drv_cases = [c for c in allcases if any(d.get("drv") for d in (c["hist"] or []))]
-    PRED = {0: None, 1: "fence.drivermode.decided-without-business", 2: "fence.drivermode.fault-at-commit"}
+    PRED = {0: None, 1: "fence.drivermode.decided-business-committed", 2: "fence.drivermode.fault-at-fence-commit"}
     for i in range(0, len(drv_cases), 400):
         part = drv_cases[i:i + 400]
         out = vlib.coq_compute("C06", HEADER, ["case_preds %s" % coq_list([case_term(dict(c, obs=[], robs=[])) for c in part])])[0]
@@ -115,19 +115,55 @@ def run(chk, replay_case=None):
         return c.get("model_pred") in listed and c.get("model_pred") == c.get("pred")
     cases = [c for c in allcases if not in_stream(c)]
     stream = [c for c in allcases if in_stream(c)]
+    # the stream a case belongs to is decided by the MODEL's evaluation of the input predicates on the history
+    # (the harness evaluates the same predicates on the real run; a disagreement keeps the case in the clean stream)
+    drv_cases = [c for c in allcases if any(d.get("drv") for d in (c["hist"] or []))]
+    PRED = {0: None, 1: "fence.drivermode.decided-business-committed", 2: "fence.drivermode.fault-at-fence-commit"}
+    for i in range(0, len(drv_cases), 400):
+        part = drv_cases[i:i + 400]
+        out = vlib.coq_compute("C06", HEADER, ["case_preds %s" % coq_list([case_term(dict(c, obs=[], robs=[])) for c in part])])[0]
+        vals = [int(x.replace("%N", "")) for x in out.strip("[] ").split(";") if x.strip()]
+        if len(vals) != len(part):
+            raise vlib.Broken("cannot parse predicate evaluation: " + out[:200])
+        for c, v in zip(part, vals):
+            c["model_pred"] = PRED[v]
+    def in_stream(c):
+        return c.get("model_pred") in listed and c.get("model_pred") == c.get("pred")
+    cases = [c for c in allcases if not in_stream(c)]
+    stream = [c for c in allcases if in_stream(c)]
+    # ---- finding stream.  A listed finding is a REGION OF INPUTS together with the EXPECTED FAILING OUTCOME, which is
+    # the model's (C06_drivermode_refuted is about exactly that behaviour).  Inside a region: real run == model ->
+    # the known finding; real run != model and the property's own statement fails -> a DIFFERENT violation ->
+    # VIOLATION; real run != model and the statement holds -> the finding no longer reproduces there (stale).
+    smism = vlib.eval_mismatches("C06", HEADER, [case_term(c) for c in stream], case_type="fcase", shard=400) if stream else {}
+    # "different" is judged on what the property talks about (error class, committed record, committed effects),
+    # not on the operation journal
+    OUTCOME = (2, 4, 5)
+    different = [i for i in sorted(smism, key=lambda i: size(stream[i]))
+                 if stream[i]["oracle"] and any(e in OUTCOME for e in smism[i])]
+    journal_only = [i for i in sorted(smism, key=lambda i: size(stream[i]))
+                    if stream[i]["oracle"] and not any(e in OUTCOME for e in smism[i])]
+    stale_variants = [i for i in smism if not stream[i]["oracle"]]
+    deferred = []
     for f in findings:
         rc = json.load(open(os.path.join(vlib.VERIF, f["replay"])))["case"]
         rp = chk.tmp("finding_%s.json" % f["id"])
         json.dump(rc, open(rp, "w"))
         rd, _ = vlib.run_harness("fence", chk.tmp("finding_out_%s.json" % f["id"]), seed=chk.seed, replay=rp)
         got = rd["cases"][0] if rd["cases"] else {}
-        variants = [c for c in stream if c["pred"] == f["pred"] and c["oracle"]]
-        if got.get("oracle") and got.get("pred") == f["pred"]:
-            chk.known("id=%s %s (replay %s fails: %s; %d generated variants fail)" % (
+        rmism = vlib.eval_mismatches("C06", HEADER, [case_term(got)], case_type="fcase") if got else {0: [6]}
+        variants = [c for j, c in enumerate(stream) if c["pred"] == f["pred"] and c["oracle"] and j not in smism]
+        if got.get("oracle") and got.get("pred") == f["pred"] and not rmism:
+            chk.known("id=%s %s (replay %s fails as listed: %s; %d generated variants fail the same way)" % (
                 f["id"], f["what"], f["replay"], got["oracle"][:120], len(variants)))
+        elif got.get("oracle"):
+            deferred.append(("fence: the replay of known finding %s now fails in a different way than listed: %s" % (f["id"], got["oracle"]),
+                             {"case": slim(got), "model_disagreements": [CODES.get(e, str(e)) for e in rmism.get(0, [])]}, True))
         else:
             print("STALE-FINDING: property=C06 id=%s its replay no longer fails" % f["id"])
             chk.notes.append("stale finding " + f["id"])
+    if stale_variants:
+        chk.notes.append("%d generated variants inside a listed region no longer fail" % len(stale_variants))
     infra = [c for c in cases if c.get("infra")]
     mism = vlib.eval_mismatches("C06", HEADER, [case_term(c) for c in cases], case_type="fcase", shard=400)
     # cases the harness itself places inside a listed finding (but the model, on the regenerated tables, does not)
@@ -144,6 +180,18 @@ def run(chk, replay_case=None):
         seen.add(cls)
         chk.violation("fence: " + c["oracle"], {"case": slim(c),
                                                  "model_disagreements": [CODES.get(e, str(e)) for e in mism.get(i, [])]}, True)
+    for i in different[:3]:
+        c = stream[i]
+        chk.violation("fence (inside the region of known finding %s, but NOT the listed failure): %s" % (c["pred"], c["oracle"]),
+                      {"case": slim(c), "expected_failing_outcome": "the model's (Fence/FenceCases.v check_case)",
+                       "model_disagreements": [CODES.get(e, str(e)) for e in smism[i]]}, True)
+    for d in deferred:
+        chk.violation(*d)
+    if journal_only and not chk.violations:
+        c = stream[journal_only[0]]
+        chk.violation("inside the region of known finding %s the code fails as listed but no longer issues the operations of the "
+                      "model the theorems are about" % c["pred"],
+                      {"case": slim(c), "model_disagreements": [CODES.get(e, str(e)) for e in smism[journal_only[0]]]}, False)
     for c in infra[:1]:
         if not oracle_fail:
             chk.violation("fence race could not be scheduled on the real code: " + c["infra"], {"case": slim(c)}, True)
@@ -172,12 +220,13 @@ def run(chk, replay_case=None):
     errs = {}
     for c in cases:
         for o in (c["obs"] or []) + (c.get("robs") or []):
-            k = {0: "ok", 1: "injected-fault", 2: "duplicate-key", 3: "refused"}.get(o["err"], "other")
+            k = {0: "ok", 1: "injected-fault", 2: "duplicate-key", 3: "refused", 4: "lock-wait-timeout"}.get(o["err"], "other")
             errs[k] = errs.get(k, 0) + 1
     chk.coverage.update({
         "trusted_base": TRUSTED,
         "evaluations": len(allcases),
         "finding_stream_cases": len(stream),
+        "finding_stream_cases_matching_expected_outcome": len(stream) - len(smism),
         "deliveries_executed_on_real_code": n_deliv,
         "distinct_nontrivial": vlib.distinct([(c["hist"], c.get("race")) for c in cases if nontrivial(c)]),
         "rule": "histories over {prepare, commit, rollback} of one branch, all of length <= %(seqlen)d, fault-free; all histories of "
@@ -191,7 +240,7 @@ def run(chk, replay_case=None):
         "delivery_outcomes": errs,
         "harness_seconds": round(secs, 1),
         "samples": [slim(c) for c in (cases[40:41] + [c for c in cases if c.get("race")][1000:1001] +
-                                       [c for c in cases if any(d["fault"] >= 0 for d in (c["hist"] or []))][200:201])] or [slim(cases[0])],
+                                       [c for c in cases if any(d["fault"] >= 0 for d in (c["hist"] or []))][200:201])] or [slim(c) for c in (cases + stream)[:1]],
     })
     chk.assumptions += ["the stand-in's transaction/lock semantics (snapshot overlay, key lock to end of transaction, failed COMMIT "
                         "applies nothing) stand for MySQL/InnoDB; gap-lock deadlocks are not modelled",
